@@ -206,11 +206,6 @@ def hasDup' : List String → Bool
   | [] => false
   | x :: r => r.contains x || hasDup' r
 
-def allSameKeys (sel : List (Series × List (Nat × Nat))) : Bool :=
-  match sel with
-  | [] => true
-  | (s, _) :: r => r.all (fun (t, _) => sortBy (· ≤ ·) t.keys == sortBy (· ≤ ·) s.keys)
-
 /-- classes of inputs for which deviations of the engine are already recorded -/
 def classes (ds : List Series) (q : Query) (sel : List (Series × List (Nat × Nat))) : List String :=
   let ingested := ds.filter (fun s => !s.points.isEmpty)
@@ -228,10 +223,8 @@ def classes (ds : List Series) (q : Query) (sel : List (Series × List (Nat × N
   let c7 := match q.agg with
     | none => []
     | some a =>
-      (if a.mode == .by && sel.any (fun (s, _) => a.labels.any (fun b => !s.keys.contains b)) then ["by-label-absent"] else []) ++
-      (if a.mode != .by && !allSameKeys sel then ["hetero-keys"] else []) ++
       (if a.mode == .by && sel.any (fun (s, _) => a.labels.any (fun b => s.keys.any (fun k => k != b && isSuffixOf b k))) then ["by-label-suffix-of-other-key"] else []) ++
-      (if a.mode == .without && sel.any (fun (s, _) => (groupKey a s).isEmpty) then ["without-removes-all-labels"] else [])
+      (if a.mode != .none && sel.any (fun (s, _) => (groupKey a s).isEmpty) then ["empty-group-key"] else [])
   c1 ++ c2 ++ c3 ++ c4 ++ c5 ++ c6 ++ c6b ++ c7
 
 def isSmallInt (q : Rat) : Bool := q.den == 1 && q.num.natAbs < pow2 40
